@@ -186,7 +186,19 @@ pub enum Ev {
     Note { code: u32, a: usize, b: usize },
 }
 
+/// Kind code that counts only events of `kind` about transaction `txid` (see `Until`).
+pub fn per_tx_kind(kind: u32, txid: usize) -> u32 {
+    (kind << 16) | (txid as u32 + 1)
+}
+
 impl Ev {
+    pub fn txid(&self) -> Option<usize> {
+        match self {
+            Ev::AttemptStart { txid, .. } | Ev::AttemptEnd { txid, .. } | Ev::ValidationEnd { txid, .. } | Ev::Finality { txid, .. } | Ev::Commit { txid, .. } => Some(*txid),
+            _ => None,
+        }
+    }
+
     pub fn kind_code(&self) -> u32 {
         match self {
             Ev::AttemptStart { .. } => 1,
@@ -590,6 +602,11 @@ impl Ctl {
 
     fn log_ev(&mut self, thread: Option<usize>, ev: Ev) {
         *self.event_counts.entry(ev.kind_code()).or_insert(0) += 1;
+        // a second counter per (kind, transaction): `until` conditions may wait for an event about one
+        // particular transaction with the kind code `per_tx_kind(kind, txid)`
+        if let Some(t) = ev.txid() {
+            *self.event_counts.entry(per_tx_kind(ev.kind_code(), t)).or_insert(0) += 1;
+        }
         match &ev {
             Ev::ValidationEnd { txid, conflict, .. } => {
                 self.stale_validated.remove(txid);
